@@ -83,6 +83,7 @@ class SimKernel:
         self.procs = {p["pid"]: {"nice": p["nice"], "ioprio": p["ioprio"], "mask": list(p["mask"]), "elig": list(p["elig"]),
                                  "rlim": [list(x) for x in p["rlim"]]} for p in case["procs"]}
         self.log = []
+        self.pids = []
 
     def dump(self):
         return [[pid, p["nice"], reported_ioprio(self.eff, p["ioprio"], p["nice"]), list(p["mask"]), list(p["elig"]),
@@ -90,6 +91,7 @@ class SimKernel:
                 for pid, p in ((q, self.procs[q]) for q in self.order)]
 
     def _p(self, pid):
+        self.pids.append(pid)          # every pid argument a native call was made with
         if pid not in self.procs:
             raise _oserr(errno.ESRCH)
         return self.procs[pid]
